@@ -16,7 +16,7 @@
     bmtree.AllPaths/full         [h]       obs [AllPaths(2^(h+1)-1, 0, 1<<63), [IndexToPath(h,i) for i in 0..2^(h+1)-2]]  (h <= 14) *)
 From Coq Require Import ZArith List Bool String.
 From Low Require Import Lib.Bits Lib.BitSeq Lib.Lex Lib.Bytes Lib.Val
-  Spec.Bmtree Spec.PathSpec Spec.IndexToPathSpec Spec.IndexToPathWideSpec
+  Spec.Bmtree Spec.PathSpec Spec.IndexSpec Spec.IndexToPathSpec Spec.IndexToPathWideSpec
   Model.BmtreePath Model.BmtreePathStr Model.BmtreeIndex Model.BmtreeIndexToPath Model.BmtreeAllPaths.
 Import ListNotations.
 Open Scope string_scope.
@@ -181,5 +181,111 @@ Definition op_allpaths_full : opdef :=
            | None => VBad end
        | _ => VBad end) |}.
 
+(** * history ops: IndexToPath is a function of its arguments, whatever was called before
+
+    bmtree.AllPaths/scribble [hs, h, junk]: the caller takes the listing AllPaths(2^(hs+1)-1, 0, 1<<63)
+    of a tiny full bitmap, renders it, overwrites every element of the returned slice with [junk], and
+    then lists IndexToPath(h, i) for every index of the tree of height h.  obs = [listing, [words]]. *)
+Definition op_scribble : opdef :=
+  {| op_name := "bmtree.AllPaths/scribble";
+     op_run := fun a => match a with
+       | [hs; h; junk] => match as_z hs, as_z h, as_z junk with
+           | Some hs, Some h, Some _ =>
+               if (0 <=? hs) && (hs <=? 8) && (0 <=? h) && (h <=? 12) then
+                 match AllPaths (2 ^ (hs + 1) - 1) 0 (2 ^ 63), c05_all h with
+                 | Some l, Some l' => VL [vzs l; vzs l']
+                 | _, _ => VPanic end
+               else VBad
+           | _, _, _ => VBad end
+       | _ => VBad end;
+     op_spec := fun_spec (fun a => match a with
+       | [hs; h; _] => match as_z hs, as_z h with
+           | Some hs, Some h =>
+               VL [vzs (map (enc (Z.to_nat hs)) (all_nodes (Z.to_nat hs)));
+                   vzs (map (enc (Z.to_nat h)) (all_nodes (Z.to_nat h)))]
+           | _, _ => VBad end
+       | _ => VBad end) |}.
+
+(** bmtree.IndexToPath/session [h, [i1, i2, …]]: consecutive calls on one height; obs = the words *)
+Definition c05_session_dom (h : Z) (l : list Z) : bool :=
+  (0 <=? h) && (h <=? 30) && forallb (fun i => (0 <=? i) && (i <? 2 ^ (h + 1) - 1)) l.
+
+Definition op_session : opdef :=
+  {| op_name := "bmtree.IndexToPath/session";
+     op_run := fun a => match a with
+       | [h; l] => match as_z h, as_zs l with
+           | Some h, Some l =>
+               if c05_session_dom h l then
+                 match opt_all (map (IndexToPath h) l) with
+                 | Some ws => vzs ws | None => VPanic end
+               else VBad
+           | _, _ => VBad end
+       | _ => VBad end;
+     op_spec := fun_spec (fun a => match a with
+       | [h; l] => match as_z h, as_zs l with
+           | Some h, Some l => vzs (map (spec_index_to_path (Z.to_nat h)) l)
+           | _, _ => VBad end
+       | _ => VBad end) |}.
+
+(** bmtree.PathToIndex/then-IndexToPath [T, [node, …]]: for every node (of the tree of the level
+    mask T, possibly partial or leaf-only): (pos, has) = PathToIndexLoose(T, word); if has then also
+    PathToIndex(T, word); then IndexToPath(Height T, .) at pos - 1, pos, pos + 1 (0 where that is not
+    an index of the full tree).  obs = [[pos, has, pos' (or -1), w-, w, w+], …].
+    The positions are C03's pre-order ranks among the stored nodes; the words must be those of the
+    FULL tree whatever mask was queried before. *)
+Definition c05_itp_or0 (h i : Z) : option Z :=
+  if (0 <=? i) && (i <? 2 ^ (h + 1) - 1) then IndexToPath h i else Some 0.
+
+Definition c05_spec_or0 (h i : Z) : Z :=
+  if (0 <=? i) && (i <? 2 ^ (h + 1) - 1) then spec_index_to_path (Z.to_nat h) i else 0.
+
+Definition c05_nodes (v : val) : option (list node) :=
+  match v with VL l => opt_all (map c05_node l) | _ => None end.
+
+Definition c05_then_dom (T : Z) (qs : list node) : bool :=
+  (1 <=? T) && (T <? 2 ^ 31) && forallb (fun q => zlen q <=? Height T) qs.
+
+Definition c05_then_step (T : Z) (q : node) : option val :=
+  let h := Height T in
+  let w := NewPath (valL (Z.to_nat h) q) (zlen q) h in
+  match PathToIndexLoose T w with
+  | Some (pos, has) =>
+      match (if has =? 1 then PathToIndex T w else Some (-1)) with
+      | Some pos' =>
+          match c05_itp_or0 h (pos - 1), c05_itp_or0 h pos, c05_itp_or0 h (pos + 1) with
+          | Some a, Some b, Some c => Some (vzs [pos; has; pos'; a; b; c])
+          | _, _, _ => None
+          end
+      | None => None
+      end
+  | None => None
+  end.
+
+Definition c05_then_spec (T : Z) (q : node) : val :=
+  let h := Height T in
+  let hn := Z.to_nat h in
+  let pos := spec_rank T hn q in
+  let has := Z.b2z (stored T q) in
+  vzs [pos; has; (if stored T q then pos else -1);
+       c05_spec_or0 h (pos - 1); c05_spec_or0 h pos; c05_spec_or0 h (pos + 1)].
+
+Definition op_then : opdef :=
+  {| op_name := "bmtree.PathToIndex/then-IndexToPath";
+     op_run := fun a => match a with
+       | [T; qs] => match as_z T, c05_nodes qs with
+           | Some T, Some qs =>
+               if c05_then_dom T qs then
+                 match opt_all (map (c05_then_step T) qs) with
+                 | Some l => VL l | None => VPanic end
+               else VBad
+           | _, _ => VBad end
+       | _ => VBad end;
+     op_spec := fun_spec (fun a => match a with
+       | [T; qs] => match as_z T, c05_nodes qs with
+           | Some T, Some qs => VL (map (c05_then_spec T) qs)
+           | _, _ => VBad end
+       | _ => VBad end) |}.
+
 Definition ops_C05 : list opdef :=
-  [ op_index_to_path; op_inverse; op_fields; op_order; op_loose_full; op_height_full; op_allpaths_full ].
+  [ op_index_to_path; op_inverse; op_fields; op_order; op_loose_full; op_height_full; op_allpaths_full;
+    op_scribble; op_session; op_then ].
